@@ -114,14 +114,20 @@ fn canon_at(v: &Value, path: &str, map_paths: &[&str], opaque: &[&str]) -> C {
     }
 }
 
-/// For types whose body is a `Value` field: a body made of one attribute-less record is that
-/// record's contents (`@a {{7}}` reads as the body `{7}`, whose model is `@a {7}`).
+/// For types whose body is a `Value` field: a body made of one record is that record's contents
+/// (`@a {{7}}` reads as the body `{7}`, whose model is `@a {7}`; `@a {@b{7}}` as `@a @b {7}`).
 pub fn unwrap_value_body(c: C) -> C {
     let mut c = c;
     loop {
         match c {
-            C::Rec { attrs, mut items, slots } if !attrs.is_empty() && slots.is_empty() && items.len() == 1 && matches!(&items[0], C::Rec { attrs: a, .. } if a.is_empty()) => {
-                if let Some(C::Rec { items: i2, slots: s2, .. }) = items.pop() {
+            C::Rec { mut attrs, mut items, slots } if !attrs.is_empty() && slots.is_empty() && items.len() == 1 && matches!(&items[0], C::Rec { .. }) => {
+                if let Some(C::Rec { attrs: a2, items: i2, slots: s2 }) = items.pop() {
+                    // the attributes of a delegated body are appended to those of the record
+                    attrs.extend(a2);
+                    let first = attrs.remove(0);
+                    attrs.retain(|a| a.1 != C::Nil);
+                    attrs.insert(0, first);
+                    attrs[1..].sort();
                     let mut i2 = i2;
                     if s2.is_empty() && i2 == vec![C::Nil] {
                         i2.clear();
